@@ -91,18 +91,34 @@ def canon_expr(e: ast.AST) -> str:
             return self._comp(n)
 
         def _comp(self, n):
-            # rename the (single) comprehension variable
-            if len(n.generators) == 1 and isinstance(n.generators[0].target, ast.Name):
-                old = n.generators[0].target.id
+            # rename the comprehension variable(s) positionally
+            if len(n.generators) == 1:
+                tg = n.generators[0].target
+                olds = [tg.id] if isinstance(tg, ast.Name) else \
+                    [e.id for e in tg.elts] if isinstance(tg, ast.Tuple) and all(isinstance(e, ast.Name) for e in tg.elts) else []
+                ren = {o: ("_v" if len(olds) == 1 else f"_v{i}") for i, o in enumerate(olds)}
 
                 class R(ast.NodeTransformer):
                     def visit_Name(s, m):
-                        if m.id == old:
-                            return ast.Name(id="_v", ctx=m.ctx)
+                        if m.id in ren:
+                            return ast.Name(id=ren[m.id], ctx=m.ctx)
                         return m
                 n = R().visit(n)
             self.generic_visit(n)
             return ast.GeneratorExp(elt=n.elt, generators=n.generators)
+
+        def visit_Call(self, n):
+            self.generic_visit(n)
+            # np.any(np.array(X)) / np.any(X) over a comprehension == any(X); same for all
+            from .model import dotted as _d
+            d = _d(n.func)
+            if d in ("np.any", "numpy.any", "np.all", "numpy.all") and len(n.args) == 1 and not n.keywords:
+                x = n.args[0]
+                if isinstance(x, ast.Call) and _d(x.func) in ("np.array", "numpy.array", "np.asarray", "list") and len(x.args) == 1:
+                    x = x.args[0]
+                if isinstance(x, (ast.GeneratorExp, ast.ListComp)):
+                    return ast.Call(func=ast.Name(id=d.split(".")[1], ctx=ast.Load()), args=[x], keywords=[])
+            return n
     e = ast.fix_missing_locations(C().visit(e))
     return norm(e, 400)
 
@@ -387,3 +403,61 @@ def equivalent(f, g, limit: int = 14):
         if evaluate(f, val) != evaluate(g, val):
             return False, val
     return True, None
+
+
+# ---------------------------------------------------------------------------------------------
+# rejection formula of a validator-like function
+# ---------------------------------------------------------------------------------------------
+
+def raise_formula(prog, fi, env0=None, depth: int = 2):
+    """-> (R_value, R_other): the conditions under which the function raises ValueError / anything else, as formulas over
+    canonical atoms; statement-level calls of package functions are followed (parameters substituted by the arguments)."""
+    from .model import dotted as _d
+    env = dict(env0 or {})
+    R = {"value": ("false",), "other": ("false",)}
+
+    def block(stmts, path):
+        """returns the path condition under which control falls through the block"""
+        for st in stmts:
+            if isinstance(st, ast.Expr) and isinstance(st.value, ast.Constant):
+                continue
+            if isinstance(st, (ast.Assign, ast.AnnAssign)):
+                t = st.targets[0] if isinstance(st, ast.Assign) and len(st.targets) == 1 else getattr(st, "target", None)
+                if isinstance(t, ast.Name) and st.value is not None:
+                    env[t.id] = subst(st.value, env)
+                continue
+            if isinstance(st, ast.If):
+                g = to_formula(st.test, env, {})
+                a = block(st.body, f_and(path, g))
+                b = block(st.orelse, f_and(path, f_not(g))) if st.orelse else f_and(path, f_not(g))
+                path = f_or(a, b)
+                if path == ("false",):
+                    return path
+                continue
+            if isinstance(st, ast.Raise):
+                exc = _d(st.exc.func) if isinstance(st.exc, ast.Call) else (_d(st.exc) if st.exc is not None else "?")
+                k = "value" if exc == "ValueError" else "other"
+                R[k] = f_or(R[k], path)
+                return ("false",)
+            if isinstance(st, ast.Return):
+                return ("false",)
+            if isinstance(st, ast.Expr) and isinstance(st.value, ast.Call) and depth > 0:
+                c = st.value
+                tgt = None
+                if isinstance(c.func, ast.Name):
+                    t = prog.resolve_name(fi.module, c.func.id)
+                    if t.kind == "func" and t.ref in prog.functions:
+                        tgt = prog.functions[t.ref]
+                if tgt is not None and not c.keywords and len(c.args) == len(tgt.params):
+                    sub_env = {p: subst(a, env) for p, a in zip(tgt.params, c.args)}
+                    rv, ro = raise_formula(prog, tgt, sub_env, depth - 1)
+                    R["value"] = f_or(R["value"], f_and(path, rv))
+                    R["other"] = f_or(R["other"], f_and(path, ro))
+                    path = f_and(path, f_not(f_or(rv, ro)))
+                continue
+            # anything else: ignored (no effect on which inputs are rejected), loops make the analysis give up
+            if isinstance(st, (ast.For, ast.While, ast.Try, ast.With)):
+                raise FrmUnknown(f"statement `{norm(st, 50)}` in a validator")
+        return path
+    block(fi.node.body, ("true",))
+    return R["value"], R["other"]
